@@ -93,7 +93,11 @@ let () =
             Buffer.add_string digest (Printf.sprintf "%d:%s;" pstep (show_vt got));
             if got <> exp then
               fail pstep prop "prop"
-                (Printf.sprintf "%s: result table %s, expected %s" what (show_vt got) (show_vt exp))
+                (if kname = "mtbdd" then
+                   Printf.sprintf "%s: result values [%s], expected [%s]" what
+                     (String.concat " " (List.map mt_string_of_code (Array.to_list got)))
+                     (String.concat " " (List.map mt_string_of_code (Array.to_list exp)))
+                 else Printf.sprintf "%s: result table %s, expected %s" what (show_vt got) (show_vt exp))
         in
         List.iter
           (fun p ->
@@ -102,6 +106,46 @@ let () =
             let what = String.concat " " t in
             try
               match t with
+              (* ---- MTBDD (I64) ------------------------------------------------ *)
+              | [ "CONSTN"; dst; v ] when kname = "mtbdd" ->
+                expect_bool "C10" p.pstep what dst (Array.make (1 lsl n) (mt_code (i64v_of_string v)))
+              | [ "VAR"; dst; v ] when kname = "mtbdd" ->
+                let v = int_of_string v in
+                expect_bool "C10" p.pstep what dst
+                  (Array.init (1 lsl n) (fun idx -> mt_code (Model.INum (if (idx lsr v) land 1 = 1 then Model.Zpos Model.XH else Model.Z0))))
+              | [ (("ADD" | "SUB" | "MUL" | "DIV" | "MIN" | "MAX") as op); dst; a; b ] when kname = "mtbdd" ->
+                (match get a, get b with
+                 | Some ta, Some tb ->
+                   let f = match op with
+                     | "ADD" -> Model.i64_add | "SUB" -> Model.i64_sub | "MUL" -> Model.i64_mul
+                     | "DIV" -> Model.i64_div | "MIN" -> Model.i64_min | _ -> Model.i64_max in
+                   expect_bool "C10" p.pstep what dst (Array.init (1 lsl n) (fun i -> mt_code (f (mt_val ta.(i)) (mt_val tb.(i)))))
+                 | _ -> stat "unresolved" 1)
+              | [ "ITE"; dst; a; b; cc ] when kname = "mtbdd" ->
+                (match get a, get b, get cc with
+                 | Some ta, Some tb, Some tc ->
+                   (* only defined for 0-1-valued conditions *)
+                   if Array.for_all (fun c -> Model.i64_is_zero (mt_val c) || Model.i64_is_one (mt_val c)) ta then
+                     expect_bool "C10" p.pstep what dst
+                       (Array.init (1 lsl n) (fun i -> if Model.i64_is_zero (mt_val ta.(i)) then tc.(i) else tb.(i)))
+                   else stat "unresolved" 1
+                 | _ -> stat "unresolved" 1)
+              | [ "RESTRICT"; dst; a; pos; neg ] when kname = "mtbdd" ->
+                (match get a with
+                 | Some ta ->
+                   let pos = int_of_string pos and neg = int_of_string neg in
+                   expect_bool "C10" p.pstep what dst
+                     (Array.init (1 lsl n) (fun i -> ta.((i lor pos) land lnot neg)))
+                 | None -> stat "unresolved" 1)
+              | "EVAL" :: a :: [] when kname = "mtbdd" ->
+                (match get a, split_ws p.pres with
+                 | Some ta, "vt" :: nn :: vals when int_of_string nn = n ->
+                   check "C10";
+                   let impl = Array.of_list (List.map (fun v -> term_code "mtbdd" v) vals) in
+                   if impl <> ta then
+                     fail p.pstep "C10" "prop"
+                       (Printf.sprintf "eval disagrees with the node-by-node interpretation of h%d" (slot_of a))
+                 | _ -> stat "unresolved" 1)
               | [ ("TT" | "TTI"); dst; nv; hex ] ->
                 let nv = int_of_string nv in
                 let tab = Z.of_string_base 16 (if starts_with hex "0x" then String.sub hex 2 (String.length hex - 2) else hex) in
